@@ -1,6 +1,6 @@
 SPECIFICATION Spec
 CONSTANTS
- Variants <- MCVariants
+ Variants <- MCSameDev
  NBk = 4
  Inits <- MCInits
  InoutInits <- MCInoutInits
@@ -18,8 +18,8 @@ CONSTANTS
  DevSeqOpenEarly = FALSE
  DevLinkDirect = FALSE
  DevBackupCount = FALSE
- DevInplaceInput = TRUE
- DevMoveBeforeClose = FALSE
+ DevInplaceInput = FALSE
+ DevMoveBeforeClose = TRUE
  DevRouteDiscard = FALSE
-INVARIANT NoEarlyEffect
+INVARIANT SuccessState
 CHECK_DEADLOCK FALSE
